@@ -6,6 +6,7 @@ package harness
 
 import (
 	"bytes"
+	"strconv"
 	"context"
 	"encoding/json"
 	"errors"
@@ -158,6 +159,7 @@ func Build(repoDir, verifDir string) (*Env, error) {
 		env.workers <- &worker{id: i, dir: d}
 	}
 	env.BuildS = time.Since(t0).Seconds()
+	ActiveEnv = env
 	return env, nil
 }
 
@@ -216,6 +218,8 @@ type Step struct {
 	// StdinFrom: take stdin bytes from the stdout of an earlier step (index),
 	// keeping this step's delivery plan. nil: use Step.Stdin as is.
 	StdinFrom *int `json:"stdin_from,omitempty"`
+	// GoMaxProcs sets GOMAXPROCS of the worker process (0: host default).
+	GoMaxProcs int `json:"gomaxprocs,omitempty"`
 	// Plain: run the uninstrumented binary with real stdin and real files
 	// (schedule, map order and delivery are whatever the host gives).
 	Plain bool   `json:"plain,omitempty"`
@@ -237,16 +241,32 @@ type Result struct {
 
 const (
 	outCap       = 16 << 20
-	AddrLimit    = 3 << 30
-	wallBackstop = 120 * time.Second
+	AddrLimit    = 10 << 30
+	wallBackstop = 300 * time.Second
 )
 
-// BudgetFor is stage-1 of the logical-clock budget (DESIGN 3.3): far above
-// what a terminating run of that size needs.
+// BudgetFor is the logical-clock budget of a step (DESIGN 3.3): far above
+// what a terminating run of that size needs. Measured costs: about 10 ticks
+// per input byte for text and YAML commands; `write --track N` costs
+// (events x N) + N^2 ticks (every event is pushed to every track, closing
+// pushes N events); `gen attr -d N` about N^2/2.
 func BudgetFor(s *Step) int64 {
 	n := 0
-	for _, a := range s.Argv {
+	tracks, maxdeg := int64(1), int64(0)
+	for i, a := range s.Argv {
 		n += len(a)
+		if i+1 < len(s.Argv) {
+			if a == "--track" {
+				if v, err := strconv.ParseInt(s.Argv[i+1], 10, 64); err == nil && v > 1 && v <= 200000 {
+					tracks = v
+				}
+			}
+			if a == "-d" || a == "--maxDegree" {
+				if v, err := strconv.ParseInt(s.Argv[i+1], 10, 64); err == nil && v > 1 && v <= 20000 {
+					maxdeg = v
+				}
+			}
+		}
 	}
 	if s.Stdin != nil {
 		n += len(s.Stdin.Data)
@@ -254,10 +274,13 @@ func BudgetFor(s *Step) int64 {
 	for _, f := range s.Files {
 		n += len(f.Data)
 	}
-	return 3_000_000 + 3_000*int64(n)
+	return 20_000_000 + 100*int64(n) + 2*tracks*int64(n) + 3*tracks*tracks + 5*maxdeg*maxdeg
 }
 
-const Stage2Factor = 40
+// Stage 1 runs with a tenth of the budget; only a run that exhausts it is
+// re-executed with the full budget (so a hang costs 1.1 budgets and the
+// evidence can report how many terminating runs needed stage 2).
+const Stage1Divisor = 10
 
 type capWriter struct {
 	buf bytes.Buffer
@@ -286,17 +309,18 @@ func (e *Env) Exec(st *Step) (*Result, error) {
 	if st.Plain {
 		return e.execPlain(w, st)
 	}
-	b1 := st.StepBudget
-	if b1 == 0 {
-		b1 = BudgetFor(st)
+	full := st.StepBudget
+	if full == 0 {
+		full = BudgetFor(st)
 	}
+	b1 := full / Stage1Divisor
 	r, err := e.execSim(w, st, b1)
 	if err != nil {
 		return nil, err
 	}
 	r.Stage = 1
 	if r.Journal != nil && r.Journal.Verdict == "step-budget" {
-		r2, err := e.execSim(w, st, b1*Stage2Factor)
+		r2, err := e.execSim(w, st, full)
 		if err != nil {
 			return nil, err
 		}
@@ -332,6 +356,9 @@ func (e *Env) execSim(w *worker, st *Step, budget int64) (*Result, error) {
 	cmd := exec.CommandContext(ctx, e.SimBin, st.Argv...)
 	cmd.Dir = run.OutDir
 	cmd.Env = []string{"CRDSIM_STEP=" + stepPath, "HOME=" + w.dir, "PATH=/usr/bin:/bin", "GOTRACEBACK=single"}
+	if st.GoMaxProcs > 0 {
+		cmd.Env = append(cmd.Env, fmt.Sprintf("GOMAXPROCS=%d", st.GoMaxProcs))
+	}
 	so := &capWriter{cap: outCap}
 	se := &capWriter{cap: outCap}
 	cmd.Stdout = so
@@ -518,4 +545,13 @@ func first(b []byte, n int) string {
 		return string(b)
 	}
 	return string(b[:n]) + fmt.Sprintf("...(+%d bytes)", len(b)-n)
+}
+
+// ActiveEnv is closed by CloseActive (used on fatal exits).
+var ActiveEnv *Env
+
+func CloseActive() {
+	if ActiveEnv != nil {
+		ActiveEnv.Close()
+	}
 }
